@@ -16,6 +16,7 @@ THEOREMS = [
     ("EG.props.C06", "C06_basic_exact"),
     ("EG.props.C06", "C06_headers_exact"),
     ("EG.props.C06", "C06_basic_latest_users"),
+    ("EG.props.C06", "C06_instances_independent"),
     ("EG.props.C06", "C06_all_methods_must_pass"),
     ("EG.props.C06", "C06_reject_is_invalid_4xx"),
     ("EG.props.C06", "C06_refuted_sig_verifies_drained_body"),
@@ -25,21 +26,30 @@ THEOREMS = [
 HARNESSES = [
     dict(name="validator", pkg="pkg/filters/validator",
          files=["harness/validator/zz_verif_c06_test.go", "harness/validator/zz_verif_c06_ref_test.go",
-                "harness/validator/zz_verif_c06_gen_test.go"],
-         run="TestVerifC06", groups=["v"], timeout=600, share=0.9),
+                "harness/validator/zz_verif_c06_gen_test.go", "harness/validator/zz_verif_c06_etcd_test.go",
+                "harness/validator/zz_verif_c06_multi_test.go"],
+         run="TestVerifC06", groups=["v"], timeout=600, share=0.8),
     dict(name="etcd", pkg="pkg/filters/validator",
          files=["harness/validator/zz_verif_c06_test.go", "harness/validator/zz_verif_c06_ref_test.go",
-                "harness/validator/zz_verif_c06_gen_test.go", "harness/validator/zz_verif_c06_etcd_test.go"],
+                "harness/validator/zz_verif_c06_gen_test.go", "harness/validator/zz_verif_c06_etcd_test.go",
+                "harness/validator/zz_verif_c06_multi_test.go"],
          run="TestVerifC06Etcd", groups=["etcd"], timeout=600, share=0.1),
+    dict(name="multi", pkg="pkg/filters/validator",
+         files=["harness/validator/zz_verif_c06_test.go", "harness/validator/zz_verif_c06_ref_test.go",
+                "harness/validator/zz_verif_c06_gen_test.go", "harness/validator/zz_verif_c06_etcd_test.go",
+                "harness/validator/zz_verif_c06_multi_test.go"],
+         run="TestVerifC06Multi", groups=["x"], timeout=600, share=0.1),
 ]
-GROUPS = {"v": "(check_v pinned)", "etcd": "(check_etcd pinned)"}
-EXPLAIN = {"v": "(explain_v pinned)", "etcd": "(explain_etcd pinned)"}
+GROUPS = {"v": "(check_v pinned)", "etcd": "(check_etcd pinned)", "x": "(check_x pinned)"}
+EXPLAIN = {"v": "(explain_v pinned)", "etcd": "(explain_etcd pinned)", "x": "(explain_x pinned)"}
 CASES = {"quick": 700, "thorough": 12000}
 RULE = ("cases: random Validator configurations (header rules, jwt HS256/384/512 via header or cookie, signature with 1-4 access keys / ttl / "
         "excludeBody / custom literals in header and presign mode, basic auth users incl. ':' and non-ASCII passwords, combinations) x requests "
         "built by an independent signer/issuer and then mutated in one covered or uncovered part; delivered as net/http parse -> "
         "ByteCountReader -> httpprot.NewRequest -> FetchPayload -> Handle; non-trivial = delivered to the filter; "
-        "class = 1 + 2*shape label + accepted; group etcd: ETCD-mode basic auth on a mocked cluster, histories of user-set updates "
+        "class = 1 + 2*shape label + accepted; group x: 2-3 Validator instances (rotated secret / algorithm / users / keys) and reload generations in one process, the same "
+        "credentials presented to each in sequence (first to the one that accepts them) and again after Inherit with rotated configuration; "
+        "group etcd: ETCD-mode basic auth on a mocked cluster, histories of user-set updates "
         "(add, change password, remove one, remove ALL incl. nil map, re-add) through the mocked syncer interleaved with requests by current, former "
         "and unknown users; distinct = distinct (group, input) hashes among non-trivial cases")
 TRUSTED_BASE = [
@@ -233,10 +243,33 @@ def _encode_etcd(i, o):
                ec_stuck=B(bool(o.get("stuck")) or short))
 
 
+def _encode_x(i, o):
+    cfgs = list(i["cfgs"])
+    steps, k = [], 0
+    obs = o.get("steps") or []
+    for st in i["steps"]:
+        if st.get("reload") is not None:
+            cfgs[st["inst"]] = st["reload"]
+            continue
+        if k >= len(obs):
+            break
+        rec = dict(i["cases"][st["case"]])
+        rec["cfg"] = cfgs[st["inst"]]
+        steps.append(_encode_v(rec, obs[k]))
+        k += 1
+    return Rec(x_steps=L(steps))
+
+
 def encode(c):
     i, o = c["in"], c["obs"]
     if c["grp"] == "etcd":
         return _encode_etcd(i, o)
+    if c["grp"] == "x":
+        return _encode_x(i, o)
+    return _encode_v(i, o)
+
+
+def _encode_v(i, o):
     v = o.get("view")
     res = o.get("result") or {}
     if not o.get("delivered") or v is None:
@@ -258,6 +291,10 @@ def distribution(cases):
     d["etcd_histories"] = d["etcd_updates"] = d["etcd_empty_updates"] = d["etcd_requests"] = 0
     for c in cases:
         i, o = c["in"], c["obs"]
+        if c["grp"] == "x":
+            d["multi_instance_cases"] = d.get("multi_instance_cases", 0) + 1
+            d["multi_instance_steps"] = d.get("multi_instance_steps", 0) + len(o.get("steps") or [])
+            continue
         if c["grp"] == "etcd":
             d["etcd_histories"] += 1
             for op in i["ops"] or []:
@@ -285,13 +322,20 @@ def distribution(cases):
 
 
 def signature(c, r):
-    if c["grp"] == "etcd":
-        return "etcd"
+    if c["grp"] in ("etcd", "x"):
+        return c["grp"]
     return "%s-%s" % (c["in"].get("kind"), (c["obs"].get("result") or {}).get("by"))
 
 
 def shrink_candidates(inp, grp):
     import copy
+    if grp == "x":
+        steps = inp.get("steps") or []
+        for k in range(len(steps)):
+            cand = copy.deepcopy(inp)
+            del cand["steps"][k]
+            yield cand
+        return
     if grp == "etcd":
         ops = inp.get("ops") or []
         for k in range(len(ops)):
